@@ -26,7 +26,7 @@ PLAN = {
     "thorough": {"shards": 16, "shard_timeout": 3600, "case_timeout": 240, "configs": 1200, "envs": 6, "max_case_timeouts": 20},
 }
 THRESHOLDS = {
-    "quick": {"configurations_compared": 35, "child_runs": 140, "set:environments": 6, "repr:tree": 4, "repr:ge": 4, "repr:sge": 4, "repr:dsge": 4, "repr:stack": 4, "alg:gp": 5, "alg:rs": 3, "alg:hc": 3, "alg:opo": 3, "gp_crossover_heavy:dsge": 5, "tracker:bare": 5, "tracker:with-recorder": 5, "focus:tree": 3, "focus:ge": 3, "focus:sge": 3, "focus:dsge": 3, "focus:stack": 3, "ring_recursion_configurations": 5, "same_named_classes_configurations": 3, "evaluations_traced": 2000, "distinct_programs_traced": 300},
+    "quick": {"configurations_compared": 35, "child_runs": 140, "set:environments": 6, "repr:tree": 4, "repr:ge": 4, "repr:sge": 4, "repr:dsge": 4, "repr:stack": 4, "alg:gp": 5, "alg:rs": 3, "alg:hc": 3, "alg:opo": 3, "gp_crossover_heavy:dsge": 5, "tracker:bare": 5, "tracker:with-recorder": 5, "focus:tree": 3, "focus:ge": 3, "focus:sge": 3, "focus:dsge": 3, "focus:stack": 3, "ring_recursion_configurations": 5, "same_named_classes_configurations": 3, "child_runs_after_an_earlier_problem": 60, "evaluations_traced": 2000, "distinct_programs_traced": 300},
     "thorough": {"configurations_compared": 380, "child_runs": 2200, "set:environments": 30},
 }
 REPRS = ["tree", "ge", "sge", "dsge", "stack"]
@@ -76,7 +76,8 @@ def focus_cases(rng, descs, per_repr):
 def run_child(cfg, env):
     e = core.child_env({"PYTHONHASHSEED": env["hashseed"], "PYTHONMALLOC": env["malloc"]})
     c = dict(cfg)
-    c.update({"padding": env["padding"], "import_perm": env["import_perm"], "grammar_first": env["grammar_first"]})
+    # every third environment first solves another problem over the same classes (process history is an environment too)
+    c.update({"padding": env["padding"], "import_perm": env["import_perm"], "grammar_first": env["grammar_first"], "prelude": env["import_perm"] // 7 % 3 == 2})
     c.pop("envs", None)
     p = subprocess.run([core.PY, "-m", "gev.child_c08", json.dumps(c)], cwd=str(core.VERIF), env=e, capture_output=True, timeout=45, text=True)
     for ln in p.stdout.splitlines():
@@ -107,6 +108,8 @@ def run_case(case, rec):
         if env is case["envs"][0]:
             rec.count("distinct_programs_traced", len(set(r["trace"])))
         rec.set_add("environments", f"hs={env['hashseed']},malloc={env['malloc']},pad={env['padding']},perm={env['import_perm']},gfirst={env['grammar_first']}")
+        if env["import_perm"] // 7 % 3 == 2:
+            rec.count("child_runs_after_an_earlier_problem")
         results.append((env, r))
     if len(results) < 2:
         return
